@@ -63,6 +63,8 @@ type Term struct {
 	args []*Term
 	id   int64
 	tbl  *Table
+	h1   uint64 // structural hash (two independent 64-bit mixes): equality of terms is decided on
+	h2   uint64 // these, never on pointer identity, so that it does not depend on the interning table
 }
 
 // Table is a constant lookup table exposed to the solver as a defined function.
@@ -74,6 +76,37 @@ type Table struct {
 }
 
 var termCounter int64
+
+func mix(h uint64, x uint64, k uint64) uint64 {
+	h ^= x + k + (h << 6) + (h >> 2)
+	h *= 0x9e3779b97f4a7c15
+	h ^= h >> 29
+	return h
+}
+
+func (t *Term) setHash() {
+	h1, h2 := uint64(t.op)+1, uint64(t.op)*31+7
+	h1 = mix(h1, uint64(t.w), 0x51)
+	h2 = mix(h2, uint64(t.w), 0xa7)
+	h1 = mix(h1, uint64(t.aux), 0x11)
+	h2 = mix(h2, uint64(t.aux), 0x13)
+	h1 = mix(h1, t.c, 0x17)
+	h2 = mix(h2, t.c, 0x19)
+	for i := 0; i < len(t.name); i++ {
+		h1 = mix(h1, uint64(t.name[i]), 0x21)
+		h2 = mix(h2, uint64(t.name[i]), 0x23)
+	}
+	for _, a := range t.args {
+		h1 = mix(h1, a.h1, 0x31)
+		h2 = mix(h2, a.h2, 0x33)
+	}
+	t.h1, t.h2 = h1, h2
+}
+
+// same reports structural equality of two terms.
+func same(a, b *Term) bool {
+	return a == b || (a.h1 == b.h1 && a.h2 == b.h2 && a.op == b.op && a.w == b.w)
+}
 
 type internKey struct {
 	op         Op
@@ -142,7 +175,9 @@ func newTerm(op Op, w int, args ...*Term) *Term {
 		k.a0 = args[0]
 	}
 	return intern(k, func() *Term {
-		return &Term{op: op, w: w, args: args, id: atomic.AddInt64(&termCounter, 1)}
+		nt := &Term{op: op, w: w, args: args, id: atomic.AddInt64(&termCounter, 1)}
+		nt.setHash()
+		return nt
 	})
 }
 
@@ -153,6 +188,7 @@ func newTermAux(op Op, w int, aux int, a *Term, tbl *Table) *Term {
 		if tbl != nil {
 			t.name = tbl.name
 		}
+		t.setHash()
 		return t
 	})
 }
@@ -169,10 +205,16 @@ var termTrue = &Term{op: opConst, w: 0, c: 1}
 var termFalse = &Term{op: opConst, w: 0, c: 0}
 
 func init() {
+	termTrue.setHash()
+	termFalse.setHash()
+}
+
+func init() {
 	for _, w := range []int{8, 16, 32, 64} {
 		constCache[w] = make([]*Term, 1024)
 		for i := range constCache[w] {
 			constCache[w][i] = &Term{op: opConst, w: w, c: uint64(i)}
+			constCache[w][i].setHash()
 		}
 	}
 }
@@ -192,12 +234,16 @@ func mkConst(w int, v uint64) *Term {
 	if v < 1024 && constCache[w] != nil {
 		return constCache[w][v]
 	}
-	return &Term{op: opConst, w: w, c: v}
+	ct := &Term{op: opConst, w: w, c: v}
+	ct.setHash()
+	return ct
 }
 
 func mkVar(name string, w int) *Term {
 	return intern(internKey{op: opVar, w: w, name: name}, func() *Term {
-		return &Term{op: opVar, w: w, name: name, id: atomic.AddInt64(&termCounter, 1)}
+		nt := &Term{op: opVar, w: w, name: name, id: atomic.AddInt64(&termCounter, 1)}
+		nt.setHash()
+		return nt
 	})
 }
 
@@ -239,7 +285,7 @@ func mkAnd(a, b *Term) *Term {
 		}
 		return termFalse
 	}
-	if a == b {
+	if same(a, b) {
 		return a
 	}
 	return newTerm(opAnd, 0, a, b)
@@ -258,7 +304,7 @@ func mkOr(a, b *Term) *Term {
 		}
 		return a
 	}
-	if a == b {
+	if same(a, b) {
 		return a
 	}
 	return newTerm(opOr, 0, a, b)
@@ -271,7 +317,7 @@ func mkIte(c, a, b *Term) *Term {
 		}
 		return b
 	}
-	if a == b {
+	if same(a, b) {
 		return a
 	}
 	if a.isConst() && b.isConst() && a.c == b.c {
@@ -373,12 +419,60 @@ func evalCmp(op Op, w int, x, y uint64) bool {
 	panic("evalCmp")
 }
 
+// linear splits t into base + constant (base nil for a constant); sums are kept with the constant on
+// the right so that (x + c1) - x, (x + c1) + c2 and (x + c1) - (x + c2) fold to constants / one addition.
+func linear(t *Term) (*Term, uint64) {
+	if t.isConst() {
+		return nil, t.c
+	}
+	if t.op == opAdd && t.args[1].isConst() {
+		return t.args[0], t.args[1].c
+	}
+	return t, 0
+}
+
+func mkLin(w int, base *Term, k uint64) *Term {
+	k &= mask(w)
+	if base == nil {
+		return mkConst(w, k)
+	}
+	if k == 0 {
+		return base
+	}
+	return newTerm(opAdd, w, base, mkConst(w, k))
+}
+
 func mkBin(op Op, a, b *Term) *Term {
 	if a.w != b.w {
 		panic(fmt.Sprintf("mkBin width mismatch %d %d op %d", a.w, b.w, op))
 	}
 	if a.isConst() && b.isConst() {
 		return mkConst(a.w, evalBin(op, a.w, a.c, b.c))
+	}
+	if op == opAdd || op == opSub {
+		ba, ka := linear(a)
+		bb, kb := linear(b)
+		if op == opAdd {
+			if ba == nil {
+				return mkLin(a.w, bb, ka+kb)
+			}
+			if bb == nil {
+				return mkLin(a.w, ba, ka+kb)
+			}
+			if ka != 0 || kb != 0 {
+				return mkLin(a.w, newTerm(opAdd, a.w, ba, bb), ka+kb)
+			}
+		} else {
+			if bb == nil {
+				return mkLin(a.w, ba, ka-kb)
+			}
+			if ba != nil && same(ba, bb) {
+				return mkConst(a.w, ka-kb)
+			}
+			if ba != nil && (ka != 0 || kb != 0) {
+				return mkLin(a.w, newTerm(opSub, a.w, ba, bb), ka-kb)
+			}
+		}
 	}
 	// light identities
 	switch op {
@@ -435,12 +529,19 @@ func mkCmp(op Op, a, b *Term) *Term {
 	if a.isConst() && b.isConst() {
 		return mkBool(evalCmp(op, a.w, a.c, b.c))
 	}
-	if a == b {
+	if same(a, b) {
 		switch op {
 		case opEq, opUle, opSle:
 			return termTrue
 		default:
 			return termFalse
+		}
+	}
+	if op == opEq && a.w > 0 {
+		ba, ka := linear(a)
+		bb, kb := linear(b)
+		if ba != nil && bb != nil && same(ba, bb) {
+			return mkBool(ka&mask(a.w) == kb&mask(a.w))
 		}
 	}
 	if op == opEq && a.w == 0 {
